@@ -68,6 +68,12 @@ Proof.
 Qed.
 Print Assumptions C13j_negative_literal_refused.
 
+(** white space in front of the document changes nothing (and, with the round trip, neither does the
+    amount of fuel: [parse_doc] gives more fuel to the longer text) *)
+Theorem C13j_leading_white_space_irrelevant : forall w s, all_ws w = true -> parse_doc (w ++ s) = parse_doc s.
+Proof. exact parse_doc_leading_ws. Qed.
+Print Assumptions C13j_leading_white_space_irrelevant.
+
 (** non-vacuity of the round trip: a transaction-shaped tree meets its hypothesis *)
 Example C13j_roundtrip_witness :
   let t := TObj [(s2l "nonce", TNum (NumU 18446744073709551615)); (s2l "to", TStr [34; 92; 10; 233; 8364; 128512]);
